@@ -116,6 +116,9 @@ type histOpts struct {
 	// hugeTx: the first transaction unit of the history has this many statements (a bulk load: tens of thousands of
 	// events between one BEGIN and its commit), instead of 1..3
 	hugeTx int
+	// sameColCount: every table has as many columns as the first (used for tables that are re-announced with other
+	// column types under the same id and name)
+	sameColCount bool
 }
 
 var allUnitKinds = []string{"txXid", "txCommit", "txRollback", "ddl", "autoRows", "stmtDml", "rotation", "restart", "ignorable", "unknownStmt", "setStmt", "emptyTx"}
@@ -125,9 +128,13 @@ func genHistory(r *vh.Rng, cfg Cfg, o histOpts) *history {
 	h := &history{cfg: cfg, fdeTS: uint32(r.U64()), fileCfg: map[string]Cfg{}}
 	ntab := 1 + r.Intn(3)
 	for i := 0; i < ntab; i++ {
-		t := genTable(r, 1+r.Intn(o.maxCols), cfg)
+		nc0 := 1 + r.Intn(o.maxCols)
+		if o.sameColCount && i > 0 {
+			nc0 = len(h.tables[0].cols)
+		}
+		t := genTable(r, nc0, cfg)
 		if o.colCases != nil {
-			t = genTableOf(r, 1+r.Intn(o.maxCols), cfg, o.colCases)
+			t = genTableOf(r, nc0, cfg, o.colCases)
 		}
 		if q := r.Side(); o.oddCols && q.Chance(2, 5) {
 			nc := q.Pick(9, 9, 10, 11, 12, 17)
